@@ -50,8 +50,10 @@ type Case struct {
 	Reqs   []Req       `json:"reqs"`
 	// Churn, when non-zero, seeds a round of related temporary routes that are registered after Routes and deleted
 	// again before the probes run (see Churn); ChurnMethods are extra methods the temporary routes may use.
-	Churn        uint64   `json:"churn,omitempty"`
-	ChurnMethods []string `json:"churn_methods,omitempty"`
+	// SlashViaUpdate: routes are first registered without their trailing-slash option and get it through Update
+	SlashViaUpdate bool     `json:"slash_via_update,omitempty"`
+	Churn          uint64   `json:"churn,omitempty"`
+	ChurnMethods   []string `json:"churn_methods,omitempty"`
 }
 
 func (c Case) has(opt string) bool {
@@ -80,6 +82,9 @@ func (c Case) RoutesString() string {
 	}
 	if c.Churn != 0 {
 		sb.WriteString(fmt.Sprintf(" churn=%x", c.Churn))
+	}
+	if c.SlashViaUpdate {
+		sb.WriteString(" slash-options-via-update")
 	}
 	return sb.String()
 }
@@ -212,6 +217,16 @@ func RouteOpts(rs RouteSpec) []fox.RouteOption {
 
 // Add registers one more route and updates the reference bookkeeping.
 func (b *Built) Add(rs RouteSpec) error {
+	if b.Case.SlashViaUpdate && rs.Slash != "" {
+		if _, err := b.F.Handle(rs.Method, rs.Pattern, b.Handler()); err != nil {
+			return err
+		}
+		if _, err := b.F.Update(rs.Method, rs.Pattern, b.Handler(), RouteOpts(rs)...); err != nil {
+			return err
+		}
+		b.Note(rs)
+		return nil
+	}
 	if _, err := b.F.Handle(rs.Method, rs.Pattern, b.Handler(), RouteOpts(rs)...); err != nil {
 		return err
 	}
